@@ -104,6 +104,17 @@ def quiet_pydrex():
     warnings.filterwarnings("ignore")
 
 
+def _init_worker():
+    # `kill -USR1 <pid>` dumps the Python stack of a worker (debugging aid for hangs)
+    try:
+        import faulthandler
+        import signal
+
+        faulthandler.register(signal.SIGUSR1, all_threads=True)
+    except Exception:
+        pass
+
+
 def _worker(key):
     try:
         r = _MOD.run_case(key)
@@ -230,22 +241,23 @@ def main(argv=None):
     harness_errors = []
 
     jobs = max(1, min(a.jobs, len(keys)))
-    serial = getattr(_MOD, "SERIAL", False) or jobs == 1
-    chunk = getattr(_MOD, "CHUNK", 1 if len(keys) < 50000 else 8)
-    if serial:
-        it = map(_worker, keys)
-        pool = None
-    else:
-        ctx = mp.get_context("fork")
-        pool = ctx.Pool(jobs)
-        it = pool.imap(_worker, keys, chunksize=chunk)
+    from mc import pool as cpool
+
     done = 0
-    for r in it:
+    for idx, r in cpool.imap_unordered(_worker, keys, jobs, init=_init_worker):
         done += 1
+        if isinstance(r, cpool.Died):
+            # the implementation killed the interpreter while running this case: that is an
+            # outcome of the case (reported as a violation), not a reason to hang
+            r = empty_result()
+            r["_key"] = keys[idx]
+            r["viol"].append({"clause": "process_died", "key": dict(keys[idx]) if isinstance(keys[idx], dict) else {"case": keys[idx]}, "detail": {"how": "worker process died while running this case"}})
+            r["obs"] = "died"
+            r["_died"] = True
         if "_harness_error" in r:
             harness_errors.append((r["_key"], r["_harness_error"]))
             continue
-        if done == 1:
+        if idx == 0:
             first_obs = r["obs"]
         agg["n"] += r["n"]
         agg["states"] += r["states"]
@@ -266,9 +278,6 @@ def main(argv=None):
         for v in r["viol"]:
             v["case"] = r["_key"]
             viols.setdefault(vid(v), v)
-    if pool is not None:
-        pool.close()
-        pool.join()
 
     extra = {}
     if hasattr(_MOD, "finalize") and not harness_errors:
@@ -427,42 +436,55 @@ def main(argv=None):
     return 0
 
 
-def confirm(v):
-    """Re-run the violating case twice in this process; the same violation (same clause
-    and key) must appear both times with the same observation digest."""
-    obs = []
+def _run_twice(key):
+    out = []
     for _ in range(2):
-        r = _MOD.run_case(v["case"])
-        hit = [w for w in r["viol"] if w["clause"] == v["clause"] and jdump(w["key"]) == jdump(v["key"])]
-        if not hit:
-            return None
-        obs.append(r["obs"])
-    if obs[0] != obs[1]:
+        r = _MOD.run_case(key)
+        out.append((r["obs"], [(w["clause"], jdump(w["key"]), w.get("detail")) for w in r["viol"]]))
+    return out
+
+
+def confirm(v):
+    """Re-run the violating case twice in a forked child (the case may kill the
+    interpreter); the same violation (same clause and key) must appear both times with the
+    same observation digest."""
+    from mc import pool as cpool
+
+    if v["clause"] == "process_died":
+        r = cpool.run_isolated(_run_twice, v["case"])
+        return True if isinstance(r, cpool.Died) else None
+    r = cpool.run_isolated(_run_twice, v["case"])
+    if isinstance(r, cpool.Died):
         return None
-    return True
+    for obs, vs in r:
+        if not any(c == v["clause"] and k == jdump(v["key"]) for c, k, _ in vs):
+            return None
+    return True if r[0][0] == r[1][0] else None
 
 
 def do_replay(pid, rep):
+    from mc import pool as cpool
+
     _MOD.warmup()
     quiet_pydrex()
     if rep.get("case") is None:
         print("replay file has no case (cross-case finalize violation); re-run the check")
         return 2
-    res = []
-    for _ in range(2):
-        r = _MOD.run_case(rep["case"])
-        hit = [
-            w
-            for w in r["viol"]
-            if w["clause"] == rep["clause"] and jdump(w["key"]) == jdump(rep["vkey"])
-        ]
-        res.append((r["obs"], hit))
-    if res[0][0] != res[1][0]:
+    r = cpool.run_isolated(_run_twice, rep["case"])
+    if isinstance(r, cpool.Died):
+        if rep["clause"] == "process_died":
+            print("replayed: the interpreter dies while running this case (" + r.describe() + ")")
+            print(f"VIOLATION property={pid} replay={rep.get('replay', '').split()[-1]}")
+            return 1
+        print("HARNESS-ERROR replay child died")
+        return 2
+    if r[0][0] != r[1][0]:
         print("HARNESS-ERROR replay observations differ between two runs")
         return 2
-    if res[0][1]:
+    hit = [d for c, k, d in r[0][1] if c == rep["clause"] and k == jdump(rep["vkey"])]
+    if hit:
         print(f"replayed: {rep['clause']} {jdump(rep['vkey'])}")
-        print("detail: " + jdump(res[0][1][0].get("detail"))[:2000])
+        print("detail: " + jdump(hit[0])[:2000])
         print(f"VIOLATION property={pid} replay={rep.get('replay', '').split()[-1]}")
         return 1
     print("replay: violation no longer occurs")
